@@ -33,12 +33,12 @@ pub fn def() -> CheckDef {
                same k must return the same labels with the identical BDDs, and membership of every (state, colour) must be unchanged. \
                (2) analyse_formulae(.., Some(zip), ..): entry formula-i must equal the library's batch result for line i of the archived \
                formulae.txt. (3) an extended formula evaluated with the reloaded sets must equal its evaluation with the in-memory sets. \
-               Non-trivial: >= 2 labels and some set neither empty nor full; distinct by (network, labels, formulae, k).",
+               (4) one case in 40 archives scattered sets of up to 9 000 points over a graph with 2-3 spare variable sets (entries of 100+ KB). Non-trivial: >= 2 labels and some set neither empty nor full; distinct by (network, labels, formulae, k).",
         assumptions: &["archives are written under /verif/target/tmp and removed after each case", ".bnet / .sbml files are produced by lib-param-bn's own writers from the generated network"],
         cases: |t| if t == Tier::Quick { 600 } else { 30_000 },
         needs: |t| {
             let m = if t == Tier::Quick { 1 } else { 40 };
-            vec![("distinct_nontrivial", 100 * m), ("format_aeon", 50 * m), ("format_bnet", 20 * m), ("format_sbml", 30 * m), ("k_0", 20 * m), ("k_1", 20 * m), ("k_2", 20 * m), ("k_3", 20 * m), ("analysis_archives", 100 * m), ("sets_reloaded", 500 * m)]
+            vec![("distinct_nontrivial", 100 * m), ("format_aeon", 50 * m), ("format_bnet", 20 * m), ("format_sbml", 30 * m), ("k_0", 20 * m), ("k_1", 20 * m), ("k_2", 20 * m), ("k_3", 20 * m), ("analysis_archives", 100 * m), ("sets_reloaded", 500 * m), ("large_entries_reloaded", 20 * m)]
         },
         run,
         prelude: None,
@@ -67,7 +67,80 @@ pub fn read_zip(path: &str) -> Result<HashMap<String, String>, String> {
     Ok(out)
 }
 
+/// Archives with LARGE entries: scattered sets of thousands of points over a graph with three
+/// sets of spare variables (tens of thousands of BDD nodes, entries of 100+ KB) next to small ones.
+fn large_case(rng: &mut Rng, idx: u64) -> CaseOut {
+    let aeon = "a -> b\nb -| c\nc -> d\nd -?? e\ne -> a\na -?? c\n$a: e\n$b: a\n$d: c\n$e: d";
+    let mut out = CaseOut::new(format!("large|{idx}|{}", rng.next()));
+    out.count("large_archives");
+    let dir = scratch_dir("c16L", idx);
+    let zip_path = format!("{dir}/large.zip");
+    let verdict = (|| -> Result<Option<(String, String)>, String> {
+        let bn = BooleanNetwork::try_from(aeon)?;
+        let k = rng.range(2, 3) as u16;
+        let graph = get_extended_symbolic_graph(&bn, k)?;
+        let ctx = graph.symbolic_context();
+        let vars = ctx.bdd_variable_set();
+        let all = vars.variables();
+        let mut sets: LabelToSetMap = HashMap::new();
+        let sizes = [0usize, 7, rng.range(150, 400), rng.range(2500, 4500), rng.range(5000, 9000)];
+        for (i, n) in sizes.iter().enumerate() {
+            let clauses: Vec<biodivine_lib_bdd::BddPartialValuation> =
+                (0..*n).map(|_| biodivine_lib_bdd::BddPartialValuation::from_values(&all.iter().map(|v| (*v, rng.coin())).collect::<Vec<_>>())).collect();
+            let bdd = vars.mk_dnf(&clauses);
+            sets.insert(format!("set_{i}"), biodivine_lib_param_bn::symbolic_async_graph::GraphColoredVertices::new(bdd, ctx));
+        }
+        sets.insert("unit".to_string(), graph.mk_unit_colored_vertices());
+        let formulae: Vec<String> = vec!["true".to_string(), "EF a".to_string()];
+        build_result_archive(sets.clone(), &zip_path, &bn.to_string(), formulae).map_err(|e| e.to_string())?;
+        let entries = read_zip(&zip_path)?;
+        let model = entries.get("model.aeon").ok_or("model.aeon missing")?;
+        let bn2 = BooleanNetwork::try_from(model.as_str())?;
+        let g2 = get_extended_symbolic_graph(&bn2, k)?;
+        let loaded = load_bdd_bundle(&zip_path, g2.symbolic_context())?;
+        if loaded.len() != sets.len() {
+            return Ok(Some(("reloaded archive has a different number of sets".to_string(), format!("{} written, {} reloaded", sets.len(), loaded.len()))));
+        }
+        for (label, set) in &sets {
+            let Some(l) = loaded.get(label) else {
+                return Ok(Some(("label missing after reload".to_string(), label.clone())));
+            };
+            let entry_len = entries.get(&format!("{label}.bdd")).map(|e| e.len()).unwrap_or(0);
+            if l.as_bdd() != set.as_bdd() {
+                return Ok(Some((
+                    "reloaded set differs from the written one".to_string(),
+                    format!("label `{label}`: {} BDD nodes written ({} bytes in the archive), {} nodes reloaded", set.as_bdd().size(), entry_len, l.as_bdd().size()),
+                )));
+            }
+            if entry_len > 65536 {
+                out.count("large_entries_reloaded");
+            }
+            out.count("sets_reloaded");
+        }
+        Ok(None)
+    })();
+    let _ = std::fs::remove_dir_all(&dir);
+    match verdict {
+        Ok(None) => {
+            out.nontrivial = true;
+        }
+        Ok(Some((sig, what))) => out.violate(&sig, format!("large archive: {what}"), J::obj(vec![("network", J::s(aeon)), ("what", J::s(&what))])),
+        Err(e) => out.violate("archive cannot be written or loaded", format!("large archive: {e}"), J::obj(vec![("network", J::s(aeon)), ("error", J::s(&e))])),
+    }
+    out
+}
+
 fn run(rng: &mut Rng, idx: u64, _tier: Tier) -> CaseOut {
+    if idx % 40 == 11 {
+        return match libg::guarded(|| large_case(rng, idx)) {
+            Ok(o) => o,
+            Err(p) => {
+                let mut o = CaseOut::new(format!("large|{idx}"));
+                o.violate(&libg::panic_signature(&p), format!("large archive: panic {p}"), J::Null);
+                o
+            }
+        };
+    }
     let mut nopts = NetOpts::default();
     nopts.max_vars = 4;
     let format = *rng.pick(&["aeon", "aeon", "bnet", "bnet", "bnet", "sbml", "sbml"]);
